@@ -515,7 +515,7 @@ func advance(v reflect.Value, k, depth int, n *int) {
 
 // WalkLive visits the positions of a value that are actually encoded (the
 // present side of Maybe / Either, the selected constructor of a union) and calls
-// f on the leaves of kind KCellRef and KAny with the settable Go value.
+// f on the leaves of kind KCellRef, KAny and KDictE with the settable Go value.
 func (d *Desc) WalkLive(v reflect.Value, f func(d *Desc, v reflect.Value)) {
 	if d.Ptr && d.K != KMaybe && d.K != KMaybeRef {
 		if v.IsNil() {
@@ -533,7 +533,7 @@ func (d *Desc) WalkLive(v reflect.Value, f func(d *Desc, v reflect.Value)) {
 			v = v.FieldByName("Value")
 		}
 		f(d, v)
-	case KAny:
+	case KAny, KDictE:
 		f(d, v)
 	case KMaybe, KMaybeRef:
 		if d.Ptr {
